@@ -262,6 +262,70 @@ def handle (sess : Sess) (rep : Report) (ln : Nat) (toks : List String) (obs : S
         if mine == obs then ({ sess with model := some s2, mon := mon }, rep)
         else ({ sess with model := none, mon := mon },
               { rep.msg s!"DIVERGE line={ln} model={mine} impl={obs}" with diverged := rep.diverged + 1 })
+  | ["other"] =>
+    -- another channel of the process builds its own balancer: this one is untouched
+    if !sess.active then (sess, rep.bump "pool.skipped_after_divergence") else
+    let rep := rep.bump "pool.other_balancer_built"
+    match sess.model with
+    | none => (sess, rep)
+    | some s =>
+      let mine := "ok ; " ++ digest s
+      if mine == obs then (sess, rep)
+      else ({ sess with model := none }, { rep.msg s!"DIVERGE line={ln} model={mine} impl={obs}" with diverged := rep.diverged + 1 })
+  | "doneccs" :: rest =>
+    -- a completion with a client-side deadline error and a resolver update that arrives while the
+    -- completion's refresh is creating the replacement connection: refresh holds the balancer lock
+    -- throughout, so the outcome is that of one of the two sequential orders (C20: the replacement
+    -- ends up with the new list and is asked to reconnect)
+    if !sess.active then (sess, rep.bump "pool.skipped_after_divergence") else
+    let a := args rest
+    match (arg a "call").toNat?, (arg a "addrs").toNat? with
+    | some call, some ver =>
+      if obs == "bad-op" then (sess, rep) else
+      let opDone : Op := .done call .deClient { key := "", keys := [] }
+      let opCcs : Op := .ccs ver
+      let parts := obs.splitOn " ; "
+      let rep := rep.bump "pool.resolver_update_during_refresh_creation"
+      let explain (first second : Op) : Option (St × St × List String × List String × String) :=
+        match sess.model with
+        | none => none
+        | some s =>
+          let (s1, e1) := step s first
+          let (s2, e2) := step s1 second
+          let strs1 := e1.map evStr
+          let strs2 := e2.map evStr
+          let line := " ; ".intercalate ((strs1.filter (· != "ok")) ++ (strs2.filter (· != "ok")) ++ ["ok", digest s2])
+          some (s1, s2, strs1, strs2, line)
+      let dc := explain opDone opCcs
+      let cd := explain opCcs opDone
+      let ok (x : Option (St × St × List String × List String × String)) : Bool :=
+        match x with | some (_, _, _, _, line) => line == obs | none => false
+      let chosen := if ok dc then some (true, dc) else if ok cd then some (false, cd) else none
+      let feed (mon : MonState) (rep : Report) (op1 op2 : Op) (evs1 evs2 : List String) (mid : Option ImplView) : MonState × Report :=
+        let (mon, fails1, hits1) := mon.observe op1 evs1 mid
+        let (mon, fails2, hits2) := mon.observe op2 evs2 (parseDigest obs)
+        let rep := (fails1 ++ fails2).foldl (fun (rep : Report) (pc : String × String) =>
+          { rep.msg s!"MONITOR property={pc.1} clause={pc.2} line={ln}" with monitorFails := rep.monitorFails + 1 }) rep
+        (mon, (hits1 ++ hits2).foldl (fun (rep : Report) h => rep.bump h) rep)
+      match chosen with
+      | some (doneFirst, some (s1, s2, strs1, strs2, _)) =>
+        let (o1, o2) := if doneFirst then (opDone, opCcs) else (opCcs, opDone)
+        let (mon, rep) := feed sess.mon rep o1 o2 strs1 strs2 (parseDigest (digest s1))
+        ({ sess with model := some s2, mon := mon }, rep)
+      | _ =>
+        -- no order explains it: the completion gets the creation events, the update the rest
+        let evs := parts.filter fun e => !(e.startsWith "dg ") && e != "ok"
+        let isCreate (e : String) : Bool := e.startsWith "new " || e == "newfail"
+        let createIdx := (evs.zipIdx.filter fun p => isCreate p.1).map (·.2)
+        let evsDone := match createIdx.head? with
+          | some i => (evs.drop i).take 2
+          | none => []
+        let evsCcs := evs.filter fun e => !evsDone.contains e
+        let (mon, rep) := feed sess.mon rep opDone opCcs (evsDone ++ ["ok"]) (evsCcs ++ ["ok"]) none
+        let shown := match dc with | some (_, _, _, _, line) => line | none => "(model lost)"
+        ({ sess with model := none, mon := mon },
+         if sess.model.isSome then { rep.msg s!"DIVERGE line={ln} model={shown.take 400} impl={obs.take 400}" with diverged := rep.diverged + 1 } else rep)
+    | _, _ => (sess, rep.msg s!"BAD line={ln}")
   | "doneswap" :: rest =>
     -- a successful BIND completion overlaps with the report that completes a refresh (the swap): the
     -- outcome must be that of one of the two sequential orders (C01 / C07: the keys follow the channel)
